@@ -28,6 +28,9 @@ def check(repo: Repo, rep, tier):
     state_global(repo, rep)
     site_keyed_store(repo, rep)
     reeval_type(repo, rep)
+    from .C16 import codegen_pure
+
+    codegen_pure(repo, rep)
 
 
 def wrapper_frames(repo: Repo, f: Func):
@@ -398,6 +401,22 @@ def reeval_raises(repo: Repo, rep):
         rep.ok("R-REEVAL-RAISES", outer, calls[0], "_re_eval checks the stored old value against the new argument")
     else:
         rep.violation("R-REEVAL-RAISES", outer, outer.node, "GenericValue._re_eval does not start the check from the stored old value", construct="entry")
+    ocfg = cfg_of(outer)
+    if entry is not None:
+        en = ocfg.nodes_containing(entry)
+        from ..cfg import must_reach as _mr
+
+        if en and _mr(ocfg, ocfg.entry, en, [ocfg.ret], skip_labels=("exc",)):
+            rep.ok("R-REEVAL-RAISES", outer, entry, "GenericValue._re_eval runs the check on every path")
+        else:
+            rep.violation(
+                "R-REEVAL-RAISES",
+                outer,
+                outer.node,
+                "GenericValue._re_eval can return without running the re-evaluation check (an `old == value` fast path): that comparison is itself a *recording* comparison when the value holds inner snapshots / Is(...) "
+                "- a conditional inner snapshot records the value of the other branch - and the unmanaged parts are not refreshed",
+                construct="generic-skips-worker",
+            )
     # the reference delegates every re-evaluation: no "nothing changed" fast path in front of it (Is(...) parts hold the *object* of
     # the previous evaluation; equal now is not the same as identical later)
     sr = repo.find_func("_inline_snapshot.py", "SnapshotReference._re_eval")
